@@ -7,6 +7,7 @@
           | (decll (x* ) e) | (asgl (x* ) e) | (if c t) | (if c t f) | (while c b) | (for (CL* ) FB)
           | (break N) | (break N e) | (cont N) | (ret) | (ret e) | (try b x h) | (throw e)
           | (and a b) | (or a b) | (coal a b) | (lam (P* ) b) | (call f A* ) | (prim OP e* ) | (eval e)
+          | (switch e ARM+)          ARM ::= ((lit Z) e) | ((bind x) e) | ((wild) e)
      A  ::= e | (splat e)            T ::= 0 | 1 (trailing semicolon)
      CL ::= (it x e) | (item i x e) | (let x e) | (guard e)
      FB ::= (do e) | (yield e) | (yieldkv k v)
@@ -90,7 +91,13 @@ let rec expr_of (x : sx) : expr =
   | L (A "call" :: f :: args) -> ECall (expr_of f, List.map item_of args)
   | L (A "prim" :: A p :: args) -> EPrim (prim_of p, List.map expr_of args)
   | L [A "eval"; e] -> EEval (expr_of e)
+  | L (A "switch" :: sc :: arms) -> ESwitch (expr_of sc, List.map arm_of arms)
   | _ -> failwith "bad expr"
+and arm_of = function
+  | L [L [A "lit"; A z]; e] -> (PLit (coqz_of_string z), expr_of e)
+  | L [L [A "bind"; A v]; e] -> (PBind (cs v), expr_of e)
+  | L [L [A "wild"]; e] -> (PWild, expr_of e)
+  | _ -> failwith "bad arm"
 and item_of = function
   | L [A "splat"; e] -> (true, expr_of e)
   | e -> (false, expr_of e)
